@@ -1,12 +1,12 @@
 SPECIFICATION Spec
 CONSTANTS
-  Scheds <- SchedsBetween
+  Scheds <- SchedsChain
   Blocking = {}
-  Panicking = {}
+  Panicking = {1}
   MaxNow = 4
-  MaxStep = 3
+  MaxStep = 2
   MaxOps = 4
-  Chain = "none"
-  Variant = "unsortedadd"
+  Chain = "recover+delay"
+  Variant = "delayNoDefer"
 INVARIANTS Accepted
 CHECK_DEADLOCK FALSE
